@@ -1731,6 +1731,14 @@ func (l *lexer) emit(typ int) {
 	l.word = nil
 	verifPoint(l, EvSendBefore)
 	select {
+	case <-l.cancel:
+		// an error has already been reported: a token which was scanned
+		// ahead is never delivered
+		verifPoint(l, EvBail)
+		panic(errBailout)
+	default:
+	}
+	select {
 	case l.token <- tok:
 	case <-l.cancel:
 		// bailout
